@@ -426,8 +426,9 @@ def Srv.step (s : Srv) : Act → Srv × List Ev
     | some sc => (s, if s.botIn sc then s.namesReply sc else [])
     | none => (s, [])
   | .who c =>
+    -- the reply to a WHO query (the bot sends one on joining; the reply may come after it has left again)
     match s.chan c with
-    | some sc => (s, if s.botIn sc then s.whoReply sc else [])
+    | some sc => (s, s.whoReply sc)
     | none => (s, [])
   | .modeis c =>
     match s.chan c with
